@@ -283,35 +283,34 @@ theorem setRef_spec (kw : List String) (st st' : St) (p : Path) (name : String) 
 
 /-! ## model-level references -/
 
-def St.acceptsSetGlobal (kw : List String) (st : St) (name : String) : Bool :=
-  !(st.childNames []).contains name && Names.isValidName kw name
+/-- no validity test: `ModelImpl.set_attr` refuses the name of a top-level space and nothing else -/
+def St.acceptsSetGlobal (st : St) (name : String) : Bool :=
+  !(st.childNames []).contains name
 
-theorem setGlobal_isSome (kw : List String) (st : St) (name : String) :
-    (st.setGlobal kw name).isSome = st.acceptsSetGlobal kw name := by
+theorem setGlobal_isSome (st : St) (name : String) :
+    (st.setGlobal name).isSome = st.acceptsSetGlobal name := by
   unfold St.setGlobal St.acceptsSetGlobal
-  cases (st.childNames []).contains name <;> cases Names.isValidName kw name <;> rfl
+  cases (st.childNames []).contains name <;> rfl
 
 /-- **an accepted `setGlobal name`**: the spaces are untouched, the name is a model-level reference now -/
-theorem setGlobal_spec (kw : List String) (st st' : St) (name : String) (hop : st.setGlobal kw name = some st') :
+theorem setGlobal_spec (st st' : St) (name : String) (hop : st.setGlobal name = some st') :
     st'.spaces = st.spaces ∧ ∀ n, n ∈ st'.globals ↔ n ∈ st.globals ∨ n = name := by
   unfold St.setGlobal at hop
   split at hop
   · cases hop
-  · split at hop
-    · cases hop
-    · simp only [Option.some.injEq] at hop
-      subst hop
-      refine ⟨rfl, ?_⟩
-      intro n
-      simp only
-      split
-      · rename_i hc
-        constructor
-        · exact Or.inl
-        · rintro (h | rfl)
-          · exact h
-          · simpa using hc
-      · simp
+  · simp only [Option.some.injEq] at hop
+    subst hop
+    refine ⟨rfl, ?_⟩
+    intro n
+    simp only
+    split
+    · rename_i hc
+      constructor
+      · exact Or.inl
+      · rintro (h | rfl)
+        · exact h
+        · simpa using hc
+    · simp
 
 theorem delGlobal_isSome (st : St) (name : String) : (st.delGlobal name).isSome = st.globals.contains name := by
   unfold St.delGlobal
@@ -872,7 +871,7 @@ def St.accepts (kw : List String) (st : St) : Op → Bool
   | .removeBases p bs => st.acceptsRemoveBases p bs
   | .setRef p name _ => st.acceptsSetRef kw p name
   | .delRef p name => (st.defd .refs p name).isSome
-  | .setGlobal name => st.acceptsSetGlobal kw name
+  | .setGlobal name => st.acceptsSetGlobal name
   | .delGlobal name => st.globals.contains name
 
 theorem apply_isSome (kw : List String) (st : St) (op : Op) : (st.apply kw op).isSome = st.accepts kw op := by
@@ -890,7 +889,7 @@ theorem apply_isSome (kw : List String) (st : St) (op : Op) : (st.apply kw op).i
   | removeBases p bs => exact removeBases_isSome st p bs
   | setRef p name v => exact setRef_isSome kw st p name v
   | delRef p name => exact delMember_isSome st .refs p name
-  | setGlobal name => exact setGlobal_isSome kw st name
+  | setGlobal name => exact setGlobal_isSome st name
   | delGlobal name => exact delGlobal_isSome st name
 
 /-- **what an accepted operation does**, operation by operation -/
@@ -926,7 +925,7 @@ theorem apply_spec (kw : List String) (st st' : St) (hk : KeysOK st) (op : Op)
   | removeBases p bs => exact removeBases_spec st st' hk p bs hop
   | setRef p name v => exact setRef_spec kw st st' p name v hop
   | delRef p name => exact delMember_spec st st' hk .refs p name hop
-  | setGlobal name => exact setGlobal_spec kw st st' name hop
+  | setGlobal name => exact setGlobal_spec st st' name hop
   | delGlobal name => exact delGlobal_spec st st' name hop
 
 end MxModel.SM
